@@ -136,6 +136,19 @@ Example lf_match_guarded_ok :
      (Some [114;116;61;99;100;32;97;42]) 0 64) = Some 0.
 Proof. vm_compute. split; reflexivity. Qed.
 
+(* F20e: an attribute value that is one double quote.  The old code took it for a quoted string
+   and computed the length 1 - 2 (size_t): match() then read far outside the value; the
+   repaired code treats values shorter than two bytes as unquoted text. *)
+Theorem lf_lone_quote_refuted :
+  exists rs q, lf_table_ok rs = false /\
+    lf_print_wellknown_g false rs (Some q) 0 64 = LfOob /\
+    lf_print_wellknown rs (Some q) 0 64 =
+    LfVal {| lf_rstatus := LfDone 0 false; lf_rbytes := []; lf_rtotal := 0 |}.
+Proof.
+  exists [lf_add_attr (lf_res_init [97] false) [114;116] (Some [34])]. exists [114;116;61;97].
+  split; [vm_compute; reflexivity|]. split; vm_compute; reflexivity.
+Qed.
+
 (* filter split: query_pattern.s[0] was read before query_pattern.length was tested; for a
    filter that ends in '=' this is the byte behind the query string *)
 Theorem lf_split_unguarded_refuted :
